@@ -691,8 +691,9 @@ fn dlt_payload<T: NomByteOrder>(
     msg_type: Option<MessageType>,
 ) -> IResult<&[u8], PayloadContent, DltParseError> {
     if verbose {
-        match count(dlt_argument::<T>, arg_cnt as usize)(input) {
-            Ok((rest, arguments)) => {
+        let (rest, payload) = take(payload_length)(input)?;
+        match count(dlt_argument::<T>, arg_cnt as usize)(payload) {
+            Ok((_, arguments)) => {
                 if let Some(MessageType::NetworkTrace(_)) = msg_type {
                     let slices = arguments
                         .iter()
@@ -705,6 +706,12 @@ fn dlt_payload<T: NomByteOrder>(
                 } else {
                     Ok((rest, PayloadContent::Verbose(arguments)))
                 }
+            }
+            Err(nom::Err::Incomplete(_)) => {
+                Err(nom::Err::Error(DltParseError::ParsingHickup(format!(
+                    "{} arguments exceed the payload length {}",
+                    arg_cnt, payload_length
+                ))))
             }
             Err(e) => Err(add_context(
                 e,
